@@ -119,6 +119,25 @@ def rules(ctx):
     guarded(ctx, rid, S + "acquire_lock", {"k": "call", "field": "_seq", "kind": "cas"}, call("is_write_pending"), False, label="cas|!pending")
     present(ctx, rid, S + "release_lock", {"k": "call", "field": "_seq", "op": "store"}, label="store")
 
+    # the sequence counter selects the slot as (seq >> 1) % slots: when the counter wraps, the selection is continuous only if the slot count
+    # divides 2^(bits-1); otherwise the wrap must be out of reach (a 64-bit counter)
+    n_rec = 0
+    for r in ctx.facts.records:
+        if r["pat"] != "xenium::seqlock":
+            continue
+        sq = [f_ for f_ in r.get("fields", []) if f_["name"] == "_seq"]
+        slots = r.get("consts", {}).get("slots")
+        if not sq or not slots:
+            continue
+        n_rec += 1
+        bits = sq[0]["size"] * 8
+        ok = bits >= 64 or (slots & (slots - 1)) == 0
+        ctx.check(ok, "SL.slot-index", S + "#sequence-width[slots=%d]" % slots, "%d-bit sequence counter, %d slots" % (bits, slots),
+                  "the sequence counter has %d bits and %d slots: after 2^%d writes the counter wraps and (seq >> 1) %% %d jumps (2^%d is not a multiple of %d) - the writer "
+                  "fills one slot and readers / update are sent to another: a load returns a value two writes old and an update is lost" % (bits, slots, bits - 1, slots, bits - 1, slots),
+                  "xenium/seqlock.hpp")
+    if n_rec < 3:
+        ctx.broken.append("seqlock record layouts not found (%d)" % n_rec)
     # slot index agreement by finite evaluation of the index expressions
     rid = "SL.slot-index"
     ctx.rule(rid, "writer and reader slot indices agree: a writer holding odd sequence s writes slot ((s>>1)+1)%slots, a reader of "
